@@ -134,7 +134,21 @@ def inHyp (roi : Roi) (ε : Rat) : Bool :=
        | .axis => e.s == 0
        | .quarter => e.c == 0
        | .general => true)
+  | .poly g => decide (3 ≤ g.vs.length)
   | _ => true
+
+/-- `OpOk` / `OpsOk` of `Lemmas/GeometryOps.lean` as executable checks. -/
+def opOkB (cur : Roi) : Op → Bool
+  | .rotate c s => isUnit c s &&
+      (match cur with
+       | .poly g => !closeFull (c * g.c + s * g.s) (s * g.c - c * g.s) ||
+           (c * g.c + s * g.s == 1 && s * g.c - c * g.s == 0)
+       | _ => true)
+  | _ => true
+
+def opsOkB : Roi → List Op → Bool
+  | _, [] => true
+  | cur, op :: rest => opOkB cur op && opsOkB (Impl.applyOp cur op) rest
 
 /-- Three-way comparison on a list of points.
 `implF`/`specF`/`nearF` per point; `py` the implementation's bits.
@@ -247,8 +261,7 @@ def stepOps (roiE opsE ptsE epsE tolE pyout : Sexp) : String :=
       | none => false
     let mc := fin.center
     let tolc := tolc * centreTolFactor fin
-    let hyp := inHyp fin ε && inHyp roi ε &&
-      ops.all fun o => match o with | .rotate c s => isUnit c s | _ => true
+    let hyp := roi.defined && isUnit (Spec.orient roi).1 (Spec.orient roi).2 && opsOkB roi ops && inHyp fin ε
     let kinds := roiKind roi ++ "→" ++ roiKind fin
     match pyout with
     | .list [pbits, pc] =>
